@@ -98,7 +98,7 @@ TEXT = {
     'C19': {
         'text': 'Machine-checked layout theorems over a hand-written model of the two commands, for EVERY image, offset and name: cim2bin output is FE, start, end, exec as little-endian words followed by the image unmodified '
                 '(drop 7 = image), end = start+length-1 as a number whenever it fits in 16 bits; cim2cas output is the 8-byte sync header, ten D0 bytes, exactly six name bytes (first min(6,len) of the name, then spaces; default = file name), '
-                'the sync header, the three words and the unmodified image. The model is tied to the commands by running the binaries built from /repo on generated files (all edge lengths up to 65536) on every run.',
+                'the sync header, the three words and the unmodified image. The model is tied to the commands twice: go2lean extracts the ordered list of writes in run(), writeU16\'s byte order, writeName\'s width/padding and the default-name rule from the current source and the extracted program is proved to be the model (C19_bin_program, C19_cas_program); and the binaries built from /repo are run on generated files (all edge lengths up to 65536) on every run.',
         'note': 'Trusted: Lean kernel; the hand-written model Z80/Spec/Cim.lean (validated against the built binaries by the correspondence on every run, not derived from the source); OS file I/O, flag parsing.',
         'technique': 'Lean 4 proof: list-layout theorems on a hand-written model; differential correspondence built binaries vs model on generated files',
     },
